@@ -20,6 +20,7 @@ func ruleC16(prog *Program, rep *Report) {
 	ruleEmbedParity(prog, rep) // Marshal reads promoted fields through the plan's offsets
 	rulePreRegister(prog, rep) // a type registered lazily makes the result depend on what was recomposed before
 	ruleParseFloatBits(prog, rep, "alt", "oj", "sen", "gen")
+	ruleDispatchArgs(prog, rep, "alt")
 }
 
 // derivedFromName: does e contain (or is it a local assigned from an expression
@@ -78,6 +79,61 @@ func derivedFromName(info *types.Info, fd *ast.FuncDecl, e ast.Expr, depth int) 
 	return found
 }
 
+// exactlyName: e is reflect.Type.Name() itself, or a local / composite-literal field holding exactly that
+// (no concatenation: PkgPath()+"/"+Name() is never empty, so testing it says nothing about an anonymous type).
+func exactlyName(info *types.Info, fd *ast.FuncDecl, e ast.Expr, depth int) bool {
+	if depth > 3 {
+		return false
+	}
+	switch x := ast.Unparen(e).(type) {
+	case *ast.CallExpr:
+		if sel, ok := x.Fun.(*ast.SelectorExpr); ok && sel.Sel.Name == "Name" && len(x.Args) == 0 {
+			if t := info.TypeOf(sel.X); t != nil && isReflectType(t) {
+				return true
+			}
+		}
+	case *ast.Ident:
+		o := info.Uses[x]
+		if _, isVar := o.(*types.Var); !isVar {
+			return false
+		}
+		all, seen := true, false
+		ast.Inspect(fd.Body, func(k ast.Node) bool {
+			as, ok := k.(*ast.AssignStmt)
+			if !ok {
+				return true
+			}
+			for i, l := range as.Lhs {
+				if i < len(as.Rhs) && identOf(l) != nil && (info.Defs[identOf(l)] == o || info.Uses[identOf(l)] == o) {
+					seen = true
+					if !exactlyName(info, fd, as.Rhs[i], depth+1) {
+						all = false
+					}
+				}
+			}
+			return true
+		})
+		return seen && all
+	case *ast.SelectorExpr:
+		all, seen := true, false
+		ast.Inspect(fd.Body, func(k ast.Node) bool {
+			kv, ok := k.(*ast.KeyValueExpr)
+			if !ok {
+				return true
+			}
+			if id, ok := kv.Key.(*ast.Ident); ok && id.Name == x.Sel.Name {
+				seen = true
+				if !exactlyName(info, fd, kv.Value, depth+1) {
+					all = false
+				}
+			}
+			return true
+		})
+		return seen && all
+	}
+	return false
+}
+
 func isReflectType(t types.Type) bool {
 	n, ok := t.(*types.Named)
 	return ok && n.Obj().Pkg() != nil && n.Obj().Pkg().Path() == "reflect" && n.Obj().Name() == "Type"
@@ -86,7 +142,7 @@ func isReflectType(t types.Type) bool {
 func ruleLossyKey(prog *Program, rep *Report) {
 	rep.Rules = append(rep.Rules,
 		"R-identity: in package alt, every lookup in a map[string]*T registry whose key derives from reflect.Type.Name() binds the result to a variable that is compared (== or !=) through a reflect.Type field with a reflect.Type value in the same function: a name is not a type",
-		"R-empty: a function that stores into such a registry under a Name()-derived key tests the length of a Name()-derived value first (anonymous types must not be registered)")
+		"R-empty: a function that stores into such a registry under a Name()-derived key tests the length of a value that is exactly Name() first - not of a concatenation such as PkgPath()+\"/\"+Name(), which is never empty (anonymous types must not be registered)")
 	pk := prog.Pkg("alt")
 	if pk == nil {
 		rep.Errorf("package alt missing")
@@ -146,7 +202,7 @@ func ruleLossyKey(prog *Program, rep *Report) {
 				}
 				for _, side := range []ast.Expr{be.X, be.Y} {
 					if c, ok := side.(*ast.CallExpr); ok && len(c.Args) == 1 {
-						if id, ok := c.Fun.(*ast.Ident); ok && id.Name == "len" && derivedFromName(info, fd, c.Args[0], 0) {
+						if id, ok := c.Fun.(*ast.Ident); ok && id.Name == "len" && exactlyName(info, fd, c.Args[0], 0) {
 							hasLenTest = true
 						}
 					}
